@@ -325,6 +325,7 @@ func consumePendingKeepAlive(serverConn *serverConnection, randomID int64) (time
 	if !ok {
 		return time.Time{}, false
 	}
+	verifhook.Point("ka.found", "id", randomID)
 	// We removed this pending ping, so it is ours: consume it regardless of
 	// whether it can be forwarded, so it is not re-dispatched to another
 	// connection or forwarded twice by concurrent handlers.
